@@ -22,12 +22,10 @@ func emit(v interface{}) {
 	out.WriteByte('\n')
 }
 
-// quiet redirects os.Stdout (the library prints a lot) to /dev/null while f runs.
+// quiet runs f. The library prints a lot on os.Stdout: main redirects os.Stdout to /dev/null once, before any command runs (results go
+// out through the writer bound to the real stdout), so that concurrent callers never swap the global - the harness itself must be
+// free of data races under the race detector.
 func quiet(f func()) {
-	devnull, _ := os.OpenFile(os.DevNull, os.O_WRONLY, 0)
-	saved := os.Stdout
-	os.Stdout = devnull
-	defer func() { os.Stdout = saved; devnull.Close() }()
 	f()
 }
 
@@ -36,6 +34,9 @@ var commands = map[string]func(args []string){}
 func main() {
 	realStdout = os.Stdout
 	out = bufio.NewWriterSize(realStdout, 1<<20)
+	if devnull, err := os.OpenFile(os.DevNull, os.O_WRONLY, 0); err == nil {
+		os.Stdout = devnull
+	}
 	defer out.Flush()
 	if len(os.Args) < 2 {
 		fmt.Fprintln(os.Stderr, "usage: bmh <command> [flags]")
